@@ -46,8 +46,8 @@ pub fn decode(
         }
         let raw_frame = &buf[drop_cnt..];
         let res = match decoder_type {
-            Request => request_pdu_len(raw_frame),
-            Response => response_pdu_len(raw_frame),
+            Request => check_protocol_id(raw_frame).and_then(|()| request_pdu_len(raw_frame)),
+            Response => check_protocol_id(raw_frame).and_then(|()| response_pdu_len(raw_frame)),
         }
         .and_then(|pdu_len| {
             retry = false;
@@ -92,12 +92,31 @@ pub fn decode(
     }
 }
 
+/// Check the protocol identifier of the MBAP header as soon as it has arrived.
+fn check_protocol_id(adu_buf: &[u8]) -> Result<()> {
+    if adu_buf.len() >= 4 {
+        let protocol_id = BigEndian::read_u16(&adu_buf[2..4]);
+        if protocol_id != 0 {
+            return Err(Error::ProtocolNotModbus(protocol_id));
+        }
+    }
+    Ok(())
+}
+
 /// Extract a PDU frame out of a buffer.
 pub fn extract_frame(buf: &[u8], pdu_len: usize) -> Result<Option<DecodedFrame>> {
     if buf.is_empty() {
         return Err(Error::BufferSize);
     }
     let adu_len = 7 + pdu_len;
+    // The header can be verified without waiting for the rest of the frame.
+    check_protocol_id(buf)?;
+    if buf.len() >= 6 {
+        let m_length = BigEndian::read_u16(&buf[4..6]) as usize;
+        if m_length != pdu_len + 1 {
+            return Err(Error::LengthMismatch(m_length, pdu_len + 1));
+        }
+    }
     if buf.len() >= adu_len {
         let (adu_buf, _next_frame) = buf.split_at(adu_len);
         let (adu_buf, pdu_data) = adu_buf.split_at(7);
